@@ -13,10 +13,11 @@ f_{z+1} = f_z S_z / (alpha_{z+1} + (n_D/n_e) C_{z+1}) in log space (vf/mock_c09.
 
 Per point the returned fractions are judged by
   range      0 <= f <= 1 (exact), finite;
-  sum        |sum f - 1| <= 1e-12 + 50 eps ||A||_2               (normalisation-row backward error);
-  balance    |f_z S_z - f_{z+1} R_{z+1}| <= 50 eps (Z+2) ||A||_2 / n_e  for every neighbouring pair  (pair flux =
-             partial sum of the balance-row backward errors);
-  fractions  |f - f_exact| <= 1e-12 + 50 eps kappa_2(A)          (forward error of a backward-stable solve);
+  fractions  |f - f_exact| <= 1e-12 + dF,  dF = 50 eps kappa_2(A)  (forward error owed by a double-precision solve);
+  sum        |sum f - 1| <= 1e-12 + 50 eps ||A||_2 + (Z+1) dF     (normalisation-row backward error, or the residual
+             implied by an admissible forward error);
+  balance    |f_z S_z - f_{z+1} R_{z+1}| <= 50 eps (Z+2) ||A||_2 / n_e + 2 max(rate) dF  for every neighbouring pair
+             (pair flux = partial sum of the balance-row backward errors);
 where A is the documented (Z+2)x(Z+1) system (balance matrix * n_e, row of ones) rebuilt by the harness from the mock
 rates ONLY to size the tolerances.  Points whose forward tolerance exceeds 1e-4 (kappa > ~1e10) are not judged on the
 forward error (counted as skipped) but still on range / sum / balance.  Density variants: from_elementdensity densities / n_el
@@ -95,6 +96,13 @@ ENTRIES = {
     "_match_element_density_point(coef_*)": dict(w=2, fam="match", reps=["npscalar"]),
 }
 FAMILY_FN = {"fractional": "fractional_abundance", "from": "from_elementdensity", "match": "match_plasma_neutrality"}
+
+
+def _donor_key(entry, fam):
+    # mechanism = the coef_tcx selection of the point helper the entry point funnels through
+    if entry == "_fractional_abundance(coef_*)":
+        return "tcx-donor-ignored:_fractional_abundance(coef_tcx=...)"
+    return "tcx-donor-ignored:%s" % FAMILY_FN[fam]
 N_EQ_CAND = 7
 
 _S = {}
@@ -368,19 +376,26 @@ def _oracle_point(elname, Z, par, ne, te, donor, nd):
 
 
 def _ratios(f, O, Z, slack):
-    """residual / tolerance for the sum, pair-balance and forward checks of one fraction vector."""
-    tolS = 1e-12 + CS * EPS * O["normA"] + (Z + 1) * slack
+    """residual / tolerance for the sum, pair-balance and forward checks of one fraction vector.
+
+    A double-precision solve of the documented system owes either a backward error of a few eps*||A|| (what the direct
+    least-squares path delivers) or a forward error of a few eps*kappa (what any forward-stable method, e.g. clipping
+    rounding-level negatives, delivers); the sum and pair-balance tolerances therefore are the backward-level bound plus
+    the residual implied by an admissible forward error  dF = 50 eps kappa (+ interpolation slack)."""
+    dF = CF * EPS * O["kappa"] + slack
+    tolS = 1e-12 + CS * EPS * O["normA"] + (Z + 1) * dF
     rS = abs(float(f.sum()) - 1.0) / tolS
     J = O["S"] * f[:-1] - O["R"] * f[1:]
-    tolJ = CJ * EPS * (Z + 2) * O["normA"] / O["ne"] + 2.0 * slack * max(float(O["S"].max()), float(O["R"].max()))
+    tolJ = CJ * EPS * (Z + 2) * O["normA"] / O["ne"] + 2.0 * dF * max(float(O["S"].max()), float(O["R"].max()))
     rJ = float(np.abs(J).max()) / tolJ
-    tolF = 1e-12 + CF * EPS * O["kappa"] + slack
+    tolF = 1e-12 + dF
     rF = float(np.abs(f - O["f"]).max()) / tolF
     return rS, rJ, rF, tolF
 
 
-def _judge_point(ctx, case, fam, f, O, O_nd, status, slack, check_sum, where):
-    """f: fraction vector returned for one point. O: oracle with the supplied donor, O_nd: oracle without donor (or None)."""
+def _judge_point(ctx, case, fam, f, O, O_nd, status, slack, check_sum, where, nodonor_ref=None):
+    """f: fraction vector returned for one point. O: oracle with the supplied donor, O_nd: oracle without donor (or None).
+    nodonor_ref(): the module's own scalar fractional_abundance answer WITHOUT donor at this point (mechanism classifier)."""
     entry = case["entry"]
     Z = case["Z"]
     C = _S["C"]
@@ -415,30 +430,36 @@ def _judge_point(ctx, case, fam, f, O, O_nd, status, slack, check_sum, where):
         ctx.mon("fractions", Z + 1)
         ctx.nontrivial()
     if not fails:
-        if check_sum:
-            ctx.margin("sum_range", rS)
-        ctx.margin("balance", rJ)
-        if tolF <= FWD_SKIP:
-            ctx.margin("fractions", rF)
+        if not trf:   # margins describe the oracle's tightness on the direct (backward-stable) path
+            sfx = "" if O_nd is None else "_with_donor"   # reported separately: sub-tolerance donor effects
+            if check_sum:
+                ctx.margin("sum_range", rS)
+            ctx.margin("balance" + sfx, rJ)
+            if tolF <= FWD_SKIP:
+                ctx.margin("fractions" + sfx, rF)
         if O_nd is not None and tolF <= FWD_SKIP:
             # would the no-donor solution have been rejected?  (sensitivity of this very comparison)
             if float(np.abs(O_nd["f"] - O["f"]).max()) > 100 * tolF:
                 ctx.mon("donor_sensitive")
         return True
     detail = dict(where=where, status=status, kappa=O["kappa"], Z=Z, fails=[(a, d) for a, _, d in fails])
+    if O_nd is not None and np.all(np.isfinite(f)):
+        rS2, rJ2, rF2, tolF2 = _ratios(f, O_nd, Z, slack)
+        same = tolF2 <= FWD_SKIP and rJ2 <= 1 and rF2 <= 1
+        if not same and nodonor_ref is not None:
+            r2 = nodonor_ref()   # conditioning-independent: identical to the module's own no-donor computation?
+            same = r2 is not None and bool(np.all(np.abs(f - r2) <= 1e-12 + 1e-9 * np.abs(r2) + 2.0 * slack))
+        if same:
+            ctx.viol(_donor_key(entry, fam),
+                     "a thermal-CX donor with density > 0 was supplied but the result equals the solution WITHOUT donor",
+                     entry=entry, max_diff_with_vs_without=float(np.abs(O_nd["f"] - O["f"]).max()), **detail)
+            return False
     if trf:
         ctx.viol("solver:lsq_linear-bounded-trf-path(status=%d)-result-inaccurate" % status,
                  "the unconstrained least-squares solution was infeasible by rounding, lsq_linear switched to its bounded "
                  "TRF iteration and the iterate it returned (status %d) violates: %s" % (status, ", ".join(a for a, _, _ in fails)),
                  entry=entry, **detail)
         return False
-    if O_nd is not None and np.all(np.isfinite(f)):
-        rS2, rJ2, rF2, tolF2 = _ratios(f, O_nd, Z, slack)
-        if rJ2 <= 1 and (rF2 <= 1 or tolF2 > FWD_SKIP):
-            ctx.viol("tcx-donor-ignored:%s" % FAMILY_FN[fam],
-                     "a thermal-CX donor with density > 0 was supplied but the result equals the exact solution WITHOUT donor",
-                     entry=entry, max_diff_with_vs_without=float(np.abs(O_nd["f"] - O["f"]).max()), **detail)
-            return False
     for name, what, d in fails:
         ctx.viol("%s:%s" % (name, entry), what, entry_point=entry, **dict(detail, **d))
     return False
@@ -574,8 +595,9 @@ def run_case(case, ctx):
             mids = (np.array([[res[z](*p) for p in mpts] for z in range(Z + 1)]), mnb)
             if len(shape) == 2 and min(xs) > 0:
                 mp = ib.abundance_axisymmetric_mapper(res)
-                phi = 0.7
-                mapper_vals = np.array([[mp[z](p[0] * math.cos(phi), p[0] * math.sin(phi), p[1]) for p in pts] for z in range(Z + 1)])
+                # rotate interior knots only: sqrt(x^2+y^2) may round below the first / above the last x knot
+                rot = [(0.7 if xs[0] < p[0] < xs[-1] else 0.0) for p in pts]
+                mapper_vals = np.array([[mp[z](p[0] * math.cos(a), p[0] * math.sin(a), p[1]) for p, a in zip(pts, rot)] for z in range(Z + 1)])
         elif iseq:
             fn = getattr(ib, entry)
             eq = _equilibrium()
@@ -637,6 +659,22 @@ def run_case(case, ctx):
         ctx.viol("shape:%s" % entry, "result has shape %s, expected %s" % (got.shape, (Z + 1, len(cols))), rep=rep)
         return
     returns_functions = entry.startswith("interpolators") or iseq
+
+    def scalar_ref(with_donor, i):
+        """(fractions, solver status) of the public scalar fractional_abundance call at point i; None if it cannot be obtained."""
+        ad2 = M.make_atomic_data(par)
+        n1 = C.STATE["lsq_calls"]
+        try:
+            if with_donor:
+                r = ib.fractional_abundance(ad2, el, float(ne[i]), float(te[i]), tcx_donor=dargs[0],
+                                            tcx_donor_n=float(nd[i]), tcx_donor_charge=dargs[2])
+            else:
+                r = ib.fractional_abundance(ad2, el, float(ne[i]), float(te[i]))
+        except (C.SolverNonTermination, C.ContractViolation):
+            return None
+        stat = C.STATE["lsq"][-1] if (C.STATE["lsq_calls"] > n1 and C.STATE["lsq"]) else None
+        del C.STATE["lsq"][:max(0, len(C.STATE["lsq"]) - 64)]
+        return _stack(r, Z)[:, 0], stat
 
     col_slack = {}
     for j, i in enumerate(cols):
@@ -700,7 +738,10 @@ def run_case(case, ctx):
             ctx.skip("interpolation rounding slack too large for this knot (profile spans too many decades)")
             continue
         col_slack[j] = slack
-        _judge_point(ctx, case, fam, f, O[i], O_nd[i], statuses[i], slack, check_sum, where)
+        def nd_ref(i=i):
+            r2 = scalar_ref(False, i)
+            return None if r2 is None else r2[0]
+        _judge_point(ctx, case, fam, f, O[i], O_nd[i], statuses[i], slack, check_sum, where, nodonor_ref=nd_ref)
 
     # ---- structure of function-valued results ------------------------------------------------------------------------
     if entry.startswith("interpolators"):
@@ -729,32 +770,32 @@ def run_case(case, ctx):
     j, i = 0, cols[0]
     g = got[:, j]
     if 0 in col_slack and np.all(np.isfinite(g)) and g.sum() > 0 and not (entry == "fractional_abundance" and rep == "scalar"):
-        ad2 = M.make_atomic_data(par)
-        try:
-            if donor is not None:
-                ref = ib.fractional_abundance(ad2, el, float(ne[i]), float(te[i]), tcx_donor=dargs[0], tcx_donor_n=float(nd[i]),
-                                              tcx_donor_charge=dargs[2])
-            else:
-                ref = ib.fractional_abundance(ad2, el, float(ne[i]), float(te[i]))
-        except (C.SolverNonTermination, C.ContractViolation):
+        rr = scalar_ref(donor is not None, i)
+        if rr is None:
             return
-        finally:
-            del C.STATE["lsq"][:max(0, len(C.STATE["lsq"]) - 64)]
-        ref = _stack(ref, Z)[:, 0]
+        ref, ref_status = rr
         f = g if fam == "fractional" else (g / nel[i] if fam == "from" else g / g.sum())
         tol = 1e-12 + 1e-9 * np.abs(ref) + 2.0 * col_slack[0]
         bad = np.abs(f - ref) > tol
         ctx.mon("cross_entry", Z + 1)
         if bad.any():
-            if fam != "fractional" and O_nd[i] is not None and float(np.abs(f - O_nd[i]["f"]).max()) < float(np.abs(f - O[i]["f"]).max()):
-                ctx.viol("tcx-donor-ignored:%s" % FAMILY_FN[fam],
-                         "a thermal-CX donor with density > 0 was supplied: fractional_abundance uses it, this entry point returns the no-donor fractions",
-                         entry=entry, point=i)
-            else:
-                k = int(np.argmax(np.abs(f - ref) / tol))
-                ctx.viol("entry-points-disagree:%s-vs-fractional_abundance(scalar)" % entry,
-                         "same point, same rates: fractions differ from the scalar fractional_abundance call",
-                         charge=k, got=float(f[k]), ref=float(ref[k]), rep=rep, point=i)
+            trf_involved = statuses[i] in C.TRF_STATUSES or ref_status in C.TRF_STATUSES
+            if O_nd[i] is not None:
+                r2 = scalar_ref(False, i)
+                if r2 is not None:
+                    trf_involved = trf_involved or r2[1] in C.TRF_STATUSES
+                    if np.all(np.abs(f - r2[0]) <= 1e-12 + 1e-9 * np.abs(r2[0]) + 2.0 * col_slack[0]):
+                        ctx.viol(_donor_key(entry, fam),
+                                 "a thermal-CX donor with density > 0 was supplied: fractional_abundance uses it, this entry point "
+                                 "returns exactly the module's own no-donor fractions", entry=entry, point=i)
+                        return
+            if trf_involved:
+                ctx.skip("cross-entry comparison not judged: a bounded-TRF-path solve is involved (reported per point)")
+                return
+            k = int(np.argmax(np.abs(f - ref) / tol))
+            ctx.viol("entry-points-disagree:%s-vs-fractional_abundance(scalar)" % entry,
+                     "same point, same rates: fractions differ from the scalar fractional_abundance call",
+                     charge=k, got=float(f[k]), ref=float(ref[k]), rep=rep, point=i)
 
 
 # =====================================================================================================================
